@@ -137,7 +137,7 @@ class Body:
             self._pred = p
         return self._pred
 
-    def reachable(self, start=0, avoid=(), unwind=False):
+    def reachable(self, start=0, avoid=(), unwind=False, skip_edges=()):
         avoid = set(avoid)
         seen = set()
         st = [start]
@@ -146,8 +146,40 @@ class Body:
             if b in seen or b in avoid:
                 continue
             seen.add(b)
-            st.extend(self.succs(b, unwind))
+            st.extend(x for x in self.succs(b, unwind) if (b, x) not in skip_edges)
         return seen
+
+    def flag_false_edges(self, cleared_in):
+        """edges `switch flag -> 0: bb` of drop flags (bool locals set to true once and to false only in the blocks
+        `cleared_in`): on a path that avoids those blocks the flag is still true, so these edges are not taken"""
+        sets = {}
+        for i, blk in enumerate(self.blocks):
+            for st_ in blk['stmts']:
+                if st_['k'] == 'assign' and not st_['p']['proj'] and st_['r'].get('k') == 'use':
+                    o = st_['r'].get('op') or st_['r'].get('x') or {}
+                    if o.get('k') == 'const' and self.tystr(o.get('ty')) == 'bool' and ('int' in o or 'bits' in o):
+                        sets.setdefault(st_['p']['l'], []).append((i, int(o.get('int', o.get('bits')))))
+                    else:
+                        sets.setdefault(st_['p']['l'], []).append((i, None))
+        for fl_, ass_ in list(sets.items()):
+            last = {}
+            for bi, v in ass_:
+                last[bi] = v            # the value the flag has when the block is left
+            sets[fl_] = list(last.items())
+        out = set()
+        for i, blk in enumerate(self.blocks):
+            t = blk['term']
+            if t['k'] != 'switch' or t['discr'].get('k') not in ('copy', 'move') or t['discr']['p']['proj']:
+                continue
+            fl = t['discr']['p']['l']
+            ass = sets.get(fl)
+            if not ass or any(v is None for _, v in ass) or not any(v == 1 for _, v in ass):
+                continue
+            if all(v == 1 or bi in cleared_in for bi, v in ass):
+                for val, tgt in t['targets']:
+                    if val == 0:
+                        out.add((i, tgt))
+        return out
 
     def return_blocks(self):
         return [i for i, b in enumerate(self.blocks) if b['term']['k'] == 'return']
